@@ -6,13 +6,13 @@ V = os.path.dirname(os.path.dirname(os.path.abspath(__file__)))
 CLAIMS = {
     # id: (level, technique, text, note, design_ref)
     "C04": ("model_checking",
-            "TLC model checking of Stream.tla (enc/dec/aead buffer machines) + trace validation against CryptoTrace.tla where TLC recomputes every mode from Modes.tla over block-cipher tables",
+            "TLC model checking of Stream.tla (enc/dec/aead buffer machines) + trace validation against CryptoTrace.tla where TLC recomputes every mode from Modes.tla over block-cipher tables + file round trips through the command line tools validated against CryptoTrace.tla",
             "Every SM4/AES mode of the API (ECB, CBC+padding, CBC blocks, CTR, CTR32, CFB-s, OFB, XTS one-shot and data-unit streaming, GCM, CCM, CBC-MAC, encrypt-then-MAC composites; one-shot, streaming, in place, "
             "block_cipher dispatch) is driven with TLC-generated chunkings and dense lengths; TLC judges each execution by evaluating the mode's definition written from its standard; decryption inputs come from the independent reference.",
             "Trusted: TLC; block functions of ref/sm4ref.py, ref/aesref.py and GF(2^128) multiplication of ref/gf128ref.py (standard vectors). ZUC and ChaCha20 are not yet bound to the specification in this tier (see DESIGN.md).",
             "4/C04"),
     "C05": ("fault_enumeration",
-            "TLC model checking of Aead.tla (ideal MAC, one tamper, all chunkings) + enumeration of the bit-flip/truncation/extension neighbourhood validated against CryptoTrace.tla",
+            "TLC model checking of Aead.tla (ideal MAC, one tamper, all chunkings) + enumeration of the bit-flip/truncation/extension neighbourhood validated against CryptoTrace.tla + authenticated command line tools (round trip, modified files)",
             "For each AEAD scheme and API style the genuine tuple must decrypt to the plaintext TLC computes, and every enumerated modification of nonce, AAD, ciphertext and tag must be refused (contract: a touched tuple is never accepted).",
             "Trusted: TLC, reference encryption producing the genuine tuples. Known finding: the CBC/CTR+HMAC composites do not authenticate the IV.",
             "4/C05"),
@@ -24,13 +24,13 @@ CLAIMS = {
             "4/C11"),
     "C06": ("exploration",
             "TLC model checking of Wire.tla (the TLV reader on every byte string to the bound; the variant without one length check must violate) + conformance of the real reader against it (WireJudge.tla) + TLC-enumerated edit programs "
-            "(Mutate.tla) applied to library-made seed objects and live handshake records, run through every consumer under AddressSanitizer/UBSan",
+            "(Mutate.tla) applied to library-made seed objects and live handshake records, run through every consumer under AddressSanitizer/UBSan and MemorySanitizer, + an independent key-holding peer (edited handshake messages, post-handshake records) whose receive sessions are validated against RecvTrace.tla",
             "132 seed objects (every decoder family x variants) x all single edit programs (tree edits with and without length repair, byte edits, TLS vector-tree edits, repetitions), all prefixes, byte overwrites; both peers of the three "
-            "handshakes with record-level edit programs at every record position. Memory errors are observed by the sanitizers with exact-size input and output allocations; termination by an alarm.",
+            "handshakes with record-level edit programs at every record position; an independent peer that holds the keys edits every handshake message (also under the record protection) and sends refused / broken-MAC records to an application that keeps reading. Memory errors are observed by the sanitizers with exact-size input and output allocations; termination by an alarm.",
             "Trusted: ASan/UBSan as observers, TLC, tools/mutlib.py. Not a proof of memory safety: coverage is the enumerated grammar. Mutants made slow by a huge PBKDF2 iteration count are counted, not reported.",
             "4/C06 and 0.2.1"),
     "C07": ("model_checking",
-            "TLC model checking of Chain.tla (ghost variables sound/must vs the path walk, full attribute product, negative config) + replay of TLC-judged chains into x509_certs_verify(_tlcp)",
+            "TLC model checking of Chain.tla (ghost variables sound/must vs the path walk, full attribute product, negative config) + replay of TLC-judged chains into x509_certs_verify(_tlcp) + certverify command line sessions validated against Cli.tla",
             "TLC covers every chain of leaf [+TLCP encryption leaf] + intermediates + anchor over the attribute product while visiting a few hundred abstract states, proving accept => sound and reject => ~must for the "
             "modelled walk and that the incremental ghosts equal the whole-chain property functions; as-built chains with every one- and two-attribute change plus simulated walks are concretised with the reference "
             "X.509 writer and the code's verdict is compared with the property value TLC computed. Unsound chains are also built with the other criticality of the known extensions, and with the root sent along (genuine / a look-alike of the same name).",
@@ -44,19 +44,19 @@ CLAIMS = {
             "Trusted: TLC, the proxy/driver harness/tlsdrv.c, reference X.509 writer. Scheduling of the two endpoint threads is explored only as far as the OS and the fragmenting proxy produce it.",
             "4/C08"),
     "C01": ("model_checking",
-            "TLC model checking of Sm2Sig.tla (nonce pool / chunking) + TLC evaluation of Sm2Judge.tla (Z, e, strict DER, ranges and nonce relations in BigNat, scalar-multiplication chains) on replayed acceptance cases and signing traces",
+            "TLC model checking of Sm2Sig.tla (nonce pool / chunking) + TLC evaluation of Sm2Judge.tla (Z, e, strict DER, ranges and nonce relations in BigNat, scalar-multiplication chains) on replayed acceptance cases and signing traces + command line sessions (sm2sign / sm2verify) validated against Cli.tla",
             "TLC computes Z (ENTL from idlen) and the digest over the SM3 table, decides the acceptance verdict of every enumerated candidate (24 DER forms x valid signatures, 7x7 r/s classes, r+s=n, context mutations, bit flips) for all three verification interfaces, "
             "and checks every produced signature of the four signing interfaces: canonical DER, ranges, s(1+d)+rd = k and r = e + x([k]G) mod n for the recovered nonce, no nonce reuse across pool refills.",
             "Trusted: TLC, SM3 table; the truth of the curve equation / x([k]G) comes from the reference implementation and is justified by TLC-checked double-and-add chains for a sample of nonces.",
             "4/C01"),
     "C02": ("model_checking",
-            "TLC evaluation of Sm2Judge.tla on encryption traces, the malformed-ciphertext space and ECDH cases (strict DER via Der.tla, curve membership in BigNat, KDF / C2 / C3 from Crypto.tla)",
+            "TLC evaluation of Sm2Judge.tla on encryption traces, the malformed-ciphertext space and ECDH cases (strict DER via Der.tla, curve membership in BigNat, KDF / C2 / C3 from Crypto.tla) + command line sessions (sm2encrypt / sm2decrypt) validated against Cli.tla",
             "Every ciphertext the six encryption interfaces produce (lengths 1..255) is judged by TLC (canonical DER, C1 on the curve, C2 and C3 recomputed from the shared point) and decrypted back; reference-made ciphertexts, "
             "17 encoding forms, C1 classes, C3/C2 modifications and bit flips are decided by the executable DecryptExpected definition; ECDH results must equal the reference [d]Q both ways and refuse invalid peers. C1 = [k]G is checked against the nonce actually drawn from the interposed entropy source, the first nonce is forced to one with an all-zero key stream, the pre-computed nonce table is driven slot by slot, compressed peer shares and the all-zero C1 with a consistent forgery are covered.",
             "Trusted: TLC, SM3 table, reference scalar multiplication for the shared point.",
             "4/C02"),
     "C03": ("model_checking",
-            "TLC model checking of Stream.tla (md buffer machine, all chunkings) + behaviour generation + trace validation against CryptoTrace.tla where TLC recomputes every construction from Crypto.tla over compression-function tables",
+            "TLC model checking of Stream.tla (md buffer machine, all chunkings) + behaviour generation + trace validation against CryptoTrace.tla where TLC recomputes every construction from Crypto.tla over compression-function tables + digest / MAC / PBKDF2 command line tools validated against Cli.tla",
             "TLC explores every chunking of the partial-block buffer machine on a small block and generates the transition-covering chunkings; each real execution (6 hash algorithms, HMAC, PBKDF2, HKDF, SM3/SM2 KDF, every API path) is validated by TLC recomputing padding, length encoding, chaining, ipad/opad, F, expand and counter rules from the TLA+ definitions -- only the compression function values come from reference tables.",
             "Trusted: TLC; compression functions of ref/sm3ref.py and ref/sharef.py (self-tested against standard vectors). SHA-512/224 and /256 are outside the property. Messages above 2^32 bits only in the thorough tier.",
             "4/C03"),
@@ -100,13 +100,13 @@ CLAIMS = {
             "Trusted: TLC, the driver's record of the supplied fields. Field values are seeded class representatives.",
             "4/C15"),
     "C16": ("model_checking",
-            "TLC model checking of Cms.tla + trace validation of cms_* calls against CmsTrace.tla",
+            "TLC model checking of Cms.tla + trace validation of cms_* calls against CmsTrace.tla + CMS command line sessions validated against Cli.tla",
             "Messages are produced by the top-level cms_* interfaces for 1..4 signers x 1..4 recipients x content classes and two content types; every recipient opens with a key object built from the raw scalar, ECPrivateKey DER and encrypted PKCS#8 PEM; "
             "outsiders, mismatched keys, zero SignerInfos (message rewritten with an independent DER writer), a SignerInfo made with a foreign key and located bit flips of content / signature / encrypted key / IV / ciphertext must fail. Signer identifiers (issuerAndSerialNumber) are tamper regions too, recipient sets put the right RecipientInfo behind look-alikes, and an encryptedKey holding more than a content-encryption key must be refused without overflow.",
             "Trusted: TLC, ref/derw.py region location, ref/sm4ref.py (classifies which CBC changes keep the padding intact: those are the recorded known finding for unauthenticated Enveloped/EncryptedData).",
             "4/C16"),
     "C17": ("exploration",
-            "TLC model checking of Sm9.tla + TLC evaluation of the Sm9Field.tla tower formulas on recorded operations (Sm9Judge.tla) + trace validation of scheme calls against Sm9Trace.tla",
+            "TLC model checking of Sm9.tla + TLC evaluation of the Sm9Field.tla tower formulas on recorded operations (Sm9Judge.tla) + trace validation of scheme calls against Sm9Trace.tla + SM9 command line sessions validated against Cli.tla",
             "Every exported sm9_z256_* operation is called on boundary-biased operands; F_p/F_N/F_p^2/F_p^4/F_p^12 results are checked congruent to the integer-evaluated defining formula (quotient witnesses), G1 sums by chord/tangent "
             "relations, G2 results against the reference and the twist equation, the pairing against the reference and bilinearity / order / non-degeneracy on the library's own outputs; signatures, ciphertexts and exchanges are produced "
             "over master keys x identities x messages and cross-checked with the reference in both directions, with other identity / message / master, bit flips, boundary h and substituted S required to fail.",
